@@ -816,7 +816,7 @@ func main() {
 		lib.ReadReplayCase(a.Replay, &c)
 		cases = []Case{c}
 	} else {
-		n := a.Pick(300, 4000)
+		n := a.Pick(800, 8000)
 		for i := 0; i < n; i++ {
 			r := rng.Fork()
 			kind := "valid"
